@@ -15,7 +15,8 @@ verbose, return_positions_and_quats True and False (index-only results: shape / 
 the pairwise-distance necessary condition), and SEQUENCES of calls in one process on the same Atoms objects (two
 tolerances on one structure, an orthorhombic then a triclinic cell with the same diagonal, two patterns, several
 structures), each judged by the oracle, compared with a fresh evaluation (modules reloaded, new objects) and checked for
-mutated inputs."""
+mutated inputs. Species names: any string is an element name (explicit masses) - look-alike names are different species
+(gen_names_c01)."""
 import itertools
 import multiprocessing
 import os
@@ -23,7 +24,7 @@ import random
 
 import numpy as np
 
-from .. import core, findlib as fl, gen_find_c01 as g
+from .. import core, findlib as fl, gen_find_c01 as g, gen_names_c01 as gn
 
 RULE = ("periodic structures from findlib.planted_structure: 0-3 planted rigid copies (per-atom perturbation <= atol/8) of "
         "11 patterns (1-5 atoms; asymmetric, symmetric CH3-like, planar, collinear, chiral) in orthorhombic / "
@@ -37,12 +38,15 @@ RULE = ("periodic structures from findlib.planted_structure: 0-3 planted rigid c
         "Atoms objects (two tolerances / same-diagonal ortho+triclinic cells / two patterns / several structures / IN-PLACE "
         "edits of atom_types, atom_type_elements, positions between searches) each compared with a fresh evaluation; the Atoms "
         "objects are obtained through Atoms(elements=), Atoms(atom_types=, atom_type_elements=), ase.Atoms -> from_ase_atoms "
-        "(oddly oriented triclinic cells), copy(), a[idx], integer coordinate arrays - ground truth is always the generator's own "
+        "(oddly oriented triclinic cells), copy(), a[idx], Atoms(atom_types=, atom_type_elements=, atom_type_masses=), integer coordinate arrays - ground truth is always the generator's own "
         "lists; ghost copies that exist only under a re-oriented / transposed reading of the cell; tight cells (smallest width only 3-30 % "
         "above diameter + 2 atol), left-handed cells, hints as negative / numpy integers; 60-80 A cells with atol 2e-5 / 1e-4 and "
         "flat patterns with one inner atom 4-6 atol off the line / plane (invisible to the distance screen) far from the origin; "
         "tolerances above the distance of two same-element pattern atoms with ONE atom at their midpoint; 40 % of the structures list their atoms in a shuffled order; 35 % of the structures "
-        "store atoms OUTSIDE the cell (each by its own lattice vector of up to 2 cells). "
+        "store atoms OUTSIDE the cell (each by its own lattice vector of up to 2 cells); 20 % of the random stream / 15 % of the "
+        "grid have SPECIES NAMES beyond the one/two-letter symbols (gen_names_c01: united-atom / coarse-grained names with explicit "
+        "masses - CH2/CH3, Bead1/Bead10, HW1/HW2 -, the mass table's Uut/Uuq/Uup/Uuh/Uuo, names differing in case or by a suffix), "
+        "renamed injectively in structure and pattern, plus rigid copies with ONE atom of a sibling (look-alike) species. "
         "Thorough adds the complete grid origin-fraction^3 x 4 poses x 11 patterns x 3 cell kinds. "
         "Non-trivial = the search reported at least one match of a pattern with >= 2 atoms AND (a planted copy straddles "
         "a cell face OR the structure contains a decoy with the pattern's geometry).")
@@ -235,8 +239,8 @@ def _logged(inp):
 def run_real(inp, log=True):
     if log:
         HISTORY.append(_logged(inp))
-    s = g.build_structure(inp)        # through the public constructor / conversion the input names (`route`, `proute`)
-    p = g.build_pattern(inp)
+    s = gn.build_structure(inp)       # through the public constructor / conversion the input names (`route`, `proute`)
+    p = gn.build_pattern(inp)
     ss, ps = snapshot(s), snapshot(p)
     res = call_find(s, p, inp)
     res["inputs_unchanged"] = unchanged(s, ss) and unchanged(p, ps)
@@ -273,9 +277,9 @@ def run_sequence(calls, log=True):
         ks, kp = ("s", c.get("sobj", id(c))), ("p", c.get("pobj", id(c)))
         fresh_s, fresh_p = ks not in objs, kp not in objs
         if fresh_s:
-            objs[ks] = g.build_structure(c)
+            objs[ks] = gn.build_structure(c)
         if fresh_p:
-            objs[kp] = g.build_pattern(c)
+            objs[kp] = gn.build_pattern(c)
         # in-place edits made by the CALLER between two searches (objects built for this very call already have them)
         for e in c.get("edits", []):
             k = ks if e["target"] == "s" else kp
@@ -372,7 +376,8 @@ def tags_of(inp):
          "pose:" + str(i.get("pose")), "place:" + str(i.get("boundary")),
          "hints:" + "".join("x" if h is not None else "-" for h in inp["hints"]),
          "via:" + inp.get("route", "elements"), "pattern via:" + inp.get("proute", "elements"),
-         "stored:" + ("unwrapped" if i.get("unwrapped") else "inside the cell")]
+         "stored:" + ("unwrapped" if i.get("unwrapped") else "inside the cell"),
+         "names:" + ("long / look-alike species names" if i.get("names") else "periodic-table symbols")]
     return t + sorted(set("decoy:" + k for k, _ in inp["decoys"]))
 
 
@@ -509,12 +514,16 @@ def grid_inp(seed, task):
     case = g.planted_at(rng, pname, ck, pose, fr, atol)
     if ck != "ortho" and rng.random() < 0.3:
         g.add_ghost(rng, case, atol)
+    named = gn.rename_species(rng, case, atol) if rng.random() < 0.15 else None
     if rng.random() < 0.4:
         g.shuffle_atoms(rng, case)
     if rng.random() < 0.25:
         g.unwrap_atoms(rng, case)
+    style = g.pick_routes(rng, case)
+    if named:
+        style.update(gn.routes(rng, case))
     return inp_of(case, atol, g.valid_hints(rng, case["pattern"]) if rng.random() < 0.3 else (None, None, None),
-                  rng.randrange(1 << 30), **g.pick_routes(rng, case))
+                  rng.randrange(1 << 30), **style)
 
 
 def _grid_worker(args):
@@ -574,12 +583,19 @@ def run(ctx, oracle_only=False, scale=1):
             case, atol, hints = g.far_case(rng)        # large cell, small tolerance, fragments far from the origin
         else:
             case, atol, hints = g.random_case(rng)
+        # species named beyond the one/two-letter symbols (united-atom beads with explicit masses, the mass table's
+        # three-letter symbols), look-alike names, and copies of the pattern with ONE atom of a sibling species
+        named = None
+        if not integer and rng.random() < 0.2:
+            named = gn.rename_species(rng, case, atol)
         if rng.random() < 0.4:
             g.shuffle_atoms(rng, case)                 # atoms of a copy neither contiguous nor in pattern order
         if not integer and atol > 0 and rng.random() < 0.35:
             g.unwrap_atoms(rng, case)                  # atoms stored up to two cells away from the home cell
         style = g.call_style(rng, atol, hints)
         style.update(g.pick_routes(rng, case, route=case.pop("want_route", None)))
+        if named:
+            style.update(gn.routes(rng, case))
         if integer:
             style["integer"] = True
         inp = inp_of(case, atol, hints, rng.randrange(1 << 30), **style)
